@@ -7,7 +7,7 @@
    the distribution families - unimodality, monotonicity of t power in the degrees of freedom - that are not assumed). *)
 From Coq Require Import Reals String List Lra.
 From TT Require Import lib.PreludeR lib.Stats lib.Distr lib.DistrWitness genR.Aggr genR.Mean proofs.Mean_core
-  proofs.Mean_aggr proofs.C06_cuped proofs.C08_power.
+  proofs.Mean_aggr proofs.C06_cuped proofs.C08_power proofs.C08_cov_power.
 Import ListNotations.
 Local Open Scope R_scope.
 
@@ -78,6 +78,30 @@ Theorem C08_covariate_never_raises_variance cfg l : dens_ok cfg l ->
   rom_metric_var cfg (aggr_of l) (theta_of cfg l) <= svar (linY cfg l) l.
 Proof. exact (covariate_never_raises_variance cfg l). Qed.
 
+(* ... and therefore never lowers the reported power (Z test, effect in the direction of a one-sided alternative):
+   power is antitone in the variance that enters it *)
+Theorem C08_z_power_antitone_in_variance fam cfg n v1 v2 delta : fam_laws fam ->
+  0 < cfg_ratio cfg -> 0 < cfg_alpha cfg < 1 -> cfg_use_t cfg = false ->
+  1 < n / (1 + cfg_ratio cfg) -> 1 < n * cfg_ratio cfg / (1 + cfg_ratio cfg) -> 0 < v1 -> v1 <= v2 ->
+  (cfg_alternative cfg = Greater -> 0 <= delta -> rom_power_from_stats fam cfg v2 n delta <= rom_power_from_stats fam cfg v1 n delta) /\
+  (cfg_alternative cfg = Less -> delta <= 0 -> rom_power_from_stats fam cfg v2 n delta <= rom_power_from_stats fam cfg v1 n delta).
+Proof.
+  intros HF Hr Ha Hz Hc Ht H1 H12. split; intros Halt Hd.
+  - apply (power_z_antitone_in_var_greater fam HF cfg n Hr Ha Hz Hc Ht v1 v2 delta); assumption.
+  - apply (power_z_antitone_in_var_less fam HF cfg n Hr Hz Hc Ht v1 v2 delta); assumption.
+Qed.
+Theorem C08_covariate_never_lowers_z_power fam cfg l n delta : fam_laws fam -> dens_ok cfg l ->
+  0 < cfg_ratio cfg -> 0 < cfg_alpha cfg < 1 -> cfg_use_t cfg = false ->
+  1 < n / (1 + cfg_ratio cfg) -> 1 < n * cfg_ratio cfg / (1 + cfg_ratio cfg) ->
+  0 < rom_metric_var cfg (aggr_of l) (theta_of cfg l) -> cfg_alternative cfg = Greater -> 0 <= delta ->
+  rom_power_from_stats fam cfg (svar (linY cfg l) l) n delta
+  <= rom_power_from_stats fam cfg (rom_metric_var cfg (aggr_of l) (theta_of cfg l)) n delta.
+Proof.
+  intros HF Hd Hr Ha Hz Hc Ht Hpos Halt Hdelta.
+  apply (power_z_antitone_in_var_greater fam HF cfg n Hr Ha Hz Hc Ht); try assumption.
+  apply covariate_never_raises_variance. exact Hd.
+Qed.
+
 Example C08_nonvacuous : fam_laws logistic_family /\ 1 < 100 / (1 + 1) /\ 1 < 100 * 1 / (1 + 1).
 Proof. split; [exact logistic_family_laws | lra]. Qed.
 
@@ -89,3 +113,5 @@ Print Assumptions C08_z_power_closed_form.
 Print Assumptions C08_covariate_never_raises_variance.
 Print Assumptions C08_z_power_increases_with_n.
 Print Assumptions C08_standard_error_closed_form.
+Print Assumptions C08_z_power_antitone_in_variance.
+Print Assumptions C08_covariate_never_lowers_z_power.
